@@ -204,6 +204,16 @@ def spd_operator(rng: Any, s: Any, blockdiag: bool = True) -> Any:
         ev = np.geomspace(1.0, float(rng.uniform(5, 50)), n)
         m = (u * ev) @ u.T
         return DenseBlockDiagonalOperator(jnp.asarray((m + m.T) / 2, dtype=s.dtype), s, 'ij,j->i')
+    if gen.is_sds(s) and len(s.shape) == 1 and s.shape[0] >= 2 and rng.integers(3) == 0:
+        # the normal operator P.T @ P + I of a selection with repeated and negative (counted from the end) indices
+        from furax._base.indices import IndexOperator
+        n = s.shape[0]
+        arr = rng.integers(-n, n, size=int(rng.integers(n, 2 * n + 1)))
+        arr[0] = -1
+        idx = (jnp.asarray(arr, dtype=jnp.int32),)
+        p = IndexOperator(idx, in_structure=s, out_structure=gen.index_out_structure(s, idx))
+        LOG.count('C06.blocks', 'normal-operator-of-a-selection')
+        return p.T @ p + IdentityOperator(s)
     if gen.is_sds(s):
         return gen.spd(rng, s)
     c = gen.children(s)
